@@ -168,6 +168,15 @@ pub mod iter {
         fn enumerate(self) -> Enumerate<Self> {
             Enumerate { base: self }
         }
+
+        /// Splitting hints: the stand-in decides its own (seeded) split points, so these are accepted and ignored.
+        fn with_min_len(self, _min: usize) -> Self {
+            self
+        }
+
+        fn with_max_len(self, _max: usize) -> Self {
+            self
+        }
     }
 
     pub trait FromParallelIterator<T: Send> {
